@@ -197,7 +197,7 @@ Import ZArith String.
 
 Theorem C14_translated_VerifyHash_is_verify_hash : forall fuel (d : list Z) (h : N),
   GoLite.call GoLiteC14.prog GoLiteC14_Verify.hash_ext fuel "VerifyHash"%string [GoLite.VInts d; GoLite.VInt (Z.of_N h)] =
-  GoLite.RRet (if verify_hash (map Z.to_N d) h then GoLite.VNil else GoLite.VErr "fmt.Errorf: data hash mismatch"%string).
+  GoLite.RRet (if verify_hash (map Z.to_N d) h then GoLite.VNil else GoLite.VErr "fmt.Errorf"%string).
 Proof. exact (GoLiteC14_Verify.VerifyHash_is_verify_hash GoLiteC14.prog GoLiteC14.prog_VerifyHash). Qed.
 
 Example C14_translated_VerifyHash_runs :
@@ -206,7 +206,7 @@ Example C14_translated_VerifyHash_runs :
   GoLite.call GoLiteC14.prog GoLiteC14_Verify.hash_ext 1 "VerifyHash"%string
     [GoLite.VInts [1; 2; 3]%Z; GoLite.VInt (Z.of_N (fnv1a [1; 2; 3]%N))] = GoLite.RRet GoLite.VNil /\
   GoLite.call GoLiteC14.prog GoLiteC14_Verify.hash_ext 1 "VerifyHash"%string
-    [GoLite.VInts [1; 2; 3]%Z; GoLite.VInt 7%Z] = GoLite.RRet (GoLite.VErr "fmt.Errorf: data hash mismatch"%string).
+    [GoLite.VInts [1; 2; 3]%Z; GoLite.VInt 7%Z] = GoLite.RRet (GoLite.VErr "fmt.Errorf"%string).
 Proof. vm_compute. repeat split; reflexivity. Qed.
 
 Print Assumptions C14_translated_VerifyHash_is_verify_hash.
